@@ -16,6 +16,15 @@ type Extension interface {
 	GetTrack(stopTimeUpdate *gtfsrt.TripUpdate_StopTimeUpdate) *string
 }
 
+// FeedScoped is implemented by extensions that keep state while processing one feed message.
+//
+// ParseRealtime calls NewFeed once per message and uses the returned extension for
+// that message only, so that no state leaks from one message to the next or is
+// shared between concurrent calls.
+type FeedScoped interface {
+	NewFeed() Extension
+}
+
 type UpdateTripResult struct {
 	// Whether this trip should be skipped.
 	ShouldSkip bool
